@@ -110,12 +110,20 @@ fn os_cmd(s: &OS, cr: &mut Rng, old: Option<&OS>, acc: &mut GenAcc, path: &[u8],
     let tag = if stale.is_some() { "stale " } else { "" };
     if c < 9 {
         // single-member remove from contains() or from the iter() item of that member
-        let rc = if cr.chance(1, 2) {
-            src.contains(&m).derive_rm_ctx()
-        } else {
-            match src.iter().find(|it| *it.val == m) {
+        let rc = match cr.below(5) {
+            0 | 1 => src.contains(&m).derive_rm_ctx(),
+            2 | 3 => match src.iter().find(|it| *it.val == m) {
                 Some(it) => it.derive_rm_ctx(),
                 None => src.contains(&m).derive_rm_ctx(),
+            },
+            // "remove what I have seen of m" from a whole-set read: several such removes issued
+            // from one state carry the *same* context clock
+            _ => {
+                if cr.chance(1, 2) {
+                    src.read().derive_rm_ctx()
+                } else {
+                    src.read_ctx().derive_rm_ctx()
+                }
             }
         };
         let clk = vc(&rc.clock);
